@@ -13,12 +13,12 @@ class C35(Prop):
                dict(pkg="internal/servers/webrtc", test="TestVerifC35Webrtc"),
                dict(pkg="internal/servers/moq", test="TestVerifC35Moq"),
                dict(pkg="internal/protocols/httpp", test="TestVerifC35Filter"),
-               dict(pkg="internal/api", test="TestVerifC35Param"),
+               dict(pkg="internal/api", test="TestVerifC35Param", thorough_only=True),
                dict(pkg="internal/core", test="TestVerifC35Core", timeout=1500)]
     n_quick = 240          # per driver (filter/param use half; the core driver scales its own rounds from it)
     n_thorough = 4000
     shard = 800
-    ready = False
+    ready = True
     rule = ("per driver VERIF_N cases from one seed. Paths: valid shapes, the boundary ('', '/', '//', '*', suffix alone, suffix "
             "minus/plus one byte), hostile names (NUL, LF, non-UTF-8, '..', '%2f', backslash), long (up to 1.4 kB in Coq "
             "cases, 1 MB in the crash runs), random bytes over a slash-heavy alphabet, doubled suffixes, one-byte mutations; "
@@ -77,12 +77,18 @@ class C35(Prop):
             env.update(d.get("env", {}))
             if replay:
                 env["VERIF_REPLAY"] = replay
-            rc, out = vlib.run_driver(wd, d["pkg"], d["test"], env, timeout=d.get("timeout", 900))
+            # the overlay (and with it the paths handed to the compiler) lives in a directory that is the same on
+            # every run, so that the Go build cache is hit; the driver's scratch space stays per run
+            ovd = vlib.ensure_dir(os.path.join(vlib.WORK, "C35-overlay", "drv%d" % k))
+            rc, out = vlib.run_driver(ovd, d["pkg"], d["test"], env, timeout=d.get("timeout", 900))
             return d, rc, out, vlib.read_jsonl(outp)
 
         cases, summaries, errors = [], [], []
-        with ThreadPoolExecutor(max_workers=len(self.drivers)) as ex:
-            results = list(ex.map(one, enumerate(self.drivers)))
+        # api.paramName sits behind the API's authentication: driven in the thorough tier only (every `go test`
+        # invocation costs ~20 CPU-seconds before the first test runs)
+        todo = [(k, d) for k, d in enumerate(self.drivers) if ctx.tier != "quick" or not d.get("thorough_only")]
+        with ThreadPoolExecutor(max_workers=len(todo)) as ex:
+            results = list(ex.map(one, todo))
         for d, rc, out, rows in results:
             for r in rows:
                 if "summary" in r:
